@@ -85,6 +85,7 @@ type Ctx struct {
 	callKey   atomic.Value // string
 	callNum   atomic.Int64 // numeric suffix of the key (-1: none); see CallN
 	budgetNs  int64
+	budgetCur atomic.Int64 // budget of the current unit (ns)
 }
 
 type stopSentinel struct{}
@@ -167,6 +168,7 @@ func RunChild(o ChildOpts) {
 	c := &Ctx{o: o, jf: f, j: bufio.NewWriterSize(f, 1<<16), nt: map[uint64]struct{}{}, obs: map[string]int64{},
 		sampleBy: map[string]int{}, violKeys: map[string]int{}, streams: map[string]*bufio.Writer{}}
 	c.budgetNs = int64(o.BudgetS * 1e9)
+	c.budgetCur.Store(c.budgetNs)
 	c.callKey.Store("")
 	go c.watchdog()
 	func() {
@@ -236,7 +238,7 @@ func (c *Ctx) watchdog() {
 			charged = 0
 		}
 		lastSeq, lastCPU = seq, now
-		if charged > c.budgetNs && c.active.Load() && c.callSeq.Load() == seq {
+		if charged > c.budgetCur.Load() && c.active.Load() && c.callSeq.Load() == seq {
 			key := c.curKey()
 			buf := make([]byte, 1<<16)
 			n := runtime.Stack(buf, true)
@@ -285,6 +287,7 @@ func (c *Ctx) Unit(name string, f func()) {
 	}
 	c.curUnit = name
 	c.inUnit = true
+	c.budgetCur.Store(c.budgetNs)
 	c.write(Rec{T: "begin", Unit: name, Seq: seq})
 	c.flush()
 	t0 := time.Now()
@@ -308,6 +311,13 @@ func (c *Ctx) Unit(name string, f func()) {
 	c.write(Rec{T: "end", Unit: name, Seq: seq, Ms: time.Since(t0).Milliseconds()})
 	c.flush()
 	c.inUnit = false
+}
+
+// SetBudget multiplies the CPU budget of guarded calls for the rest of the
+// current unit (for calls that legitimately run many goroutines or a slow
+// instrumented build).
+func (c *Ctx) SetBudget(factor float64) {
+	c.budgetCur.Store(int64(float64(c.budgetNs) * factor))
 }
 
 // Stopped reports whether the child has given up (too many violations).
